@@ -805,7 +805,12 @@ class Ev:
 	def list_repeat(self, s: Val, n: Val) -> Val:
 		assert isinstance(s.ty, TList)
 		f = self.rec(f'rf_listrep_{s.ty.sort().name()}'.replace(' ', '_').replace('(', '').replace(')', ''), [s.ty, INT], s.ty, lambda a, k, me: z3.If(k <= 0, z3.Empty(s.ty.sort()), z3.Concat(me(a, k - 1), a)))
-		return Val(s.ty, f(s.term, n.term))
+		res = f(s.term, n.term)
+		if s.items is not None:
+			# consequence of the recursive definition (induction on n): k copies of a list of known length m have length m * max(k, 0)
+			m = len(s.items)
+			self.st.assume(z3.Length(res) == z3.If(n.term > 0, m * n.term, 0))
+		return Val(s.ty, res)
 
 	def rec(self, name: str, ptys: list[Ty], rty: Ty, body: Callable[..., Any]):
 		if name in self.eng.rec_funcs:
